@@ -466,6 +466,10 @@ def process_fn(asm, f, unit):
             # "at EVERY occurrence" (e.g. every `return Ok(false)`): the claim is a condition of each such exit, including ones added later
             seg_ = textA[body0:]
             ms_ = list(re.finditer(pat, seg_)) or list(re.finditer(_relax(pat), seg_))
+            if len(c) > 6 and c[6]:
+                # only the occurrences AFTER the first match of a second pattern (e.g. after the `let` that binds a local the claim names)
+                ma_ = re.search(c[6], seg_)
+                ms_ = [m_ for m_ in ms_ if ma_ and m_.start() > ma_.end()]
             if not ms_:
                 asm.lost_claims.setdefault(f.qname(), []).append((c[5] if len(c) > 5 else tag, c[4] if len(c) > 4 else None))
                 continue
